@@ -28,10 +28,13 @@ Proved (proof, partial) for the unary operation classes between ITERATION engine
     `PartialJoin.commute` (C04), `_finish_apply` (C05), the SQL engine's join factory below the transfer (C17)).
   * `join_with_backtracking_sound`: the same end to end for `relation.join(fixed)` with its default options
     (`_begin_apply` resolves the common columns; a join that cannot be moved all the way into the database is refused
-    with `EngineError` because its operands live in different engines).
+    with `EngineError` because its operands live in different engines); `join_with_backtracking_and_transfer_sound`:
+    the same for either value of `transfer` (not finished + `transfer=True`: the target is transferred into the database
+    and joined there).
 Excluded by hypothesis, not proved: a Projection back-tracked past a Deduplication (`spineNoDedup`;
-this is the unsound pair of C04, finding F04); for joins, `transfer=True`, an explicit preferred engine other than the
-fixed relation's, and payload-holding Transfers on the way (`spineNoPayload`); and `transfer=True` towards a SQL preferred engine from an iteration-engine
+this is the unsound pair of C04, finding F04); for joins, an explicit preferred engine other than the fixed relation's,
+`backtrack=False`, a there-and-back pair that `transfer=True` would strip, and payload-holding Transfers on the way
+(`spineNoPayload`); and `transfer=True` towards a SQL preferred engine from an iteration-engine
 target combined with back-tracking: those are validated by correspondence + oracle.
 
 Working out this induction is what exposed three genuine defects of the implementation (now
@@ -164,6 +167,30 @@ theorem join_with_backtracking_sound (σ : Leaves) (st : Store) (fuel : Nat) (p 
       (∀ x, x ∈ (res.get t).columns ↔ x ∈ p'.appliedColumns t.columns) := by
   obtain ⟨p', hb, B⟩ := applyOp_pj_backtracked σ st fuel p t o hpref hbt htr hkt hks gF hfix0 hwf htrt hpo hnp res h
   exact ⟨p', hb, B.wf, B.truthful, B.engine, B.rows, B.cols⟩
+
+/-- **`relation.join(fixed, transfer=...)`, either value of `transfer`** (preferred engine = the fixed relation's
+database, back-tracking on): whenever the call succeeds, EITHER the join was back-tracked into the database and the
+result lives in the target's engine, OR - only with `transfer=True` - back-tracking did not finish, the target was
+transferred into the database (`conform(Transfer(target))`) and joined there, and the result lives in the preferred
+engine; in both cases it is well-formed and has the columns and - as a multiset - the rows of the join at the root. -/
+theorem join_with_backtracking_and_transfer_sound (σ : Leaves) (st : Store) (fuel : Nat) (p : PJoin) (t : Rel)
+    (o : Opts) (hpref : o.pref = none) (hbt : o.backtrack = true)
+    (hkt : t.engine.kind = .iter) (hks : p.fixed.engine.kind = .sql)
+    (gF : Good NodeInv.triv σ p.fixed)
+    (hfix0 : p.join.resolved = true → p.join.minCols.subset p.fixed.columns = true)
+    (hwf : t.WF) (htrt : t.Truthful σ) (hpo : t.prefTargetsGood NodeInv.triv σ p.fixed.engine)
+    (hnp : t.spineNoPayload st) (hts : o.transfer = true → transferSimplify p.fixed.engine t = none)
+    (res : Res) (h : applyOp st fuel (.pj p) t o = .ok res) :
+    ∃ p', p.beginApply t none = .ok (p', p.fixed.engine) ∧
+      (res.get t).WF ∧ (res.get t).Truthful σ ∧
+      ((res.get t).engine = t.engine ∨ (o.transfer = true ∧ (res.get t).engine = p.fixed.engine)) ∧
+      List.Perm (sem σ (res.get t)) (p'.semRows (sem σ p'.fixed) (sem σ t)) ∧
+      (∀ x, x ∈ (res.get t).columns ↔ x ∈ p'.appliedColumns t.columns) := by
+  obtain ⟨p', hb, B | ⟨ht, J⟩⟩ :=
+    applyOp_pj_any_transfer σ st fuel p t o hpref hbt hkt hks gF hfix0 hwf htrt hpo hnp hts res h
+  · exact ⟨p', hb, B.wf, B.truthful, Or.inl B.engine, B.rows, B.cols⟩
+  · obtain ⟨f1, _⟩ := pjBeginApply_ok p t none p' _ hfix0 hb
+    exact ⟨p', hb, J.wf, J.truthful, Or.inr ⟨ht, by rw [J.engine, f1]⟩, J.rows, J.cols⟩
 
 /-- Tie to the source: the `commute` methods that `backtrack_unary` consults - including
 `PartialJoin.commute` (sound by C04's `partial_join_commute_sound`) - are the current source's
